@@ -453,6 +453,7 @@ class SimProbe : public Oomd::Engine::BasePlugin {
     argParser_.addArgument("light", light_);
     argParser_.addArgument("temporal_from", temporalFrom_);
     argParser_.addArgument("temporal_skip", temporalSkip_);
+    argParser_.addArgument("requery", requery_);
     if (!argParser_.parse(args))
       return 1;
     return 0;
@@ -600,8 +601,32 @@ class SimProbe : public Oomd::Engine::BasePlugin {
         if (light_)
           continue;
         Json::Value b = one(c, f);
-        if (a.compare(b) != 0)
+        if (!a.isNull() && a.compare(b) != 0)
           unstable.append(f);
+      }
+      if (requery_) {
+        // ask for everything once more, later in the tick and in another
+        // order: a value, once obtained, must not change within the tick
+        // even if the files did
+        std::vector<std::string> again(fields);
+        for (size_t i = again.size(); i > 1; i--)
+          std::swap(again[i - 1], again[rng.below(i)]);
+        for (auto& f : again) {
+          if (!vals.isMember(f))
+            continue;
+          // (a statistic that could not be read has not been obtained: it
+          // may well become available later in the tick)
+          if (vals[f].isNull())
+            continue;
+          Json::Value b = one(c, f);
+          if (vals[f].compare(b) != 0) {
+            bool seen = false;
+            for (const auto& u : unstable)
+              seen = seen || u.asString() == f;
+            if (!seen)
+              unstable.append(f);
+          }
+        }
       }
       Ev e;
       e.kind = "probe";
@@ -658,6 +683,7 @@ class SimProbe : public Oomd::Engine::BasePlugin {
   int order_ = 0;
   bool light_ = false;
   int temporalFrom_ = 0;
+  bool requery_ = false;
   std::string temporalSkip_; // "2,5": ticks on which temporal values are
                              // not asked for (a gap in the history)
   bool skipsTick(int t) const {
